@@ -3,6 +3,7 @@ package definition
 import (
 	"encoding/json"
 	"errors"
+	"strings"
 
 	"github.com/nyaruka/goflow/assets"
 	"github.com/nyaruka/goflow/zzverif"
@@ -45,7 +46,7 @@ func (s *verifSource) FlowByName(name string) (assets.Flow, error) {
 		return nil, errors.New("store unavailable")
 	}
 	for _, f := range []*verifFlowAsset{verifFlowA, verifFlowB} {
-		if f.name == name {
+		if strings.EqualFold(f.name, name) { // as goflow's static source
 			return f, nil
 		}
 	}
